@@ -80,7 +80,11 @@ def data_for(init, key):
 
 def ops_for(init):
     keys = IMG_DATA if init["cls"] == "imager" else LS_DATA
-    return [[op, k] for op in ("fit", "transform", "fit_transform") for k in keys]
+    ops = [[op, k] for op in ("fit", "transform", "fit_transform") for k in keys]
+    if init["cls"] == "imager":
+        # the same protocol in pre-converted birth-persistence form (skew=False)
+        ops += [[op, "I2", "noskew"] for op in ("fit", "transform", "fit_transform")]
+    return ops
 
 
 def pub(init, est):
@@ -151,6 +155,8 @@ def do(ctx, est, init, op, count=True):
     d = data_for(init, op[1])
     if count:
         ctx.trans()
+    if len(op) > 2:
+        return getattr(est, op[0])(d, skew=False)
     return getattr(est, op[0])(d)
 
 
@@ -161,9 +167,9 @@ def replay(ctx, init, ops):
     return est
 
 
-def learned_after_fit_fresh(ctx, init, key):
+def learned_after_fit_fresh(ctx, init, op):
     fresh = make(init)
-    do(ctx, fresh, init, ["fit", key], count=False)
+    do(ctx, fresh, init, ["fit"] + list(op[1:]), count=False)
     return pub(init, fresh)
 
 
@@ -206,7 +212,7 @@ def run_history(case, ctx):
                         bad("collection-shape", "transform of a collection does not return one image per diagram", out_digest(out))
                     else:
                         for i, di in enumerate(d):
-                            oi = est.transform(di)
+                            oi = est.transform(di, skew=False) if len(op) > 2 else est.transform(di)
                             ctx.trans()
                             if not same_out(out[i], oi):
                                 bad("collection-order", "image %d of the collection differs from transform(diagram %d)" % (i, i),
@@ -218,16 +224,16 @@ def run_history(case, ctx):
                         bad("image-shape", "image shape differs from the resolution", list(np.asarray(out).shape), post["resolution"])
         if op[0] in ("fit", "fit_transform"):
             # differential oracle: what a fit learns depends only on the last fit's data
-            want = learned_after_fit_fresh(ctx, init, op[1])
+            want = learned_after_fit_fresh(ctx, init, op)
             ctx.valid()
-            if any(o[0] in ("fit", "fit_transform") and o[1] != op[1] for o in ops[:-1]):
+            if any(o[0] in ("fit", "fit_transform") and o[1:] != op[1:] for o in ops[:-1]):
                 ctx.nontriv("refit_on_different_data")
             if not close_state(post, want):
                 bad("refit-remembers-past", "state after %r differs from a fresh estimator fitted on the same data" % (ops,), post, want)
         if op[0] == "fit_transform":
             twin = replay(ctx, init, ops[:-1])
-            do(ctx, twin, init, ["fit", op[1]], count=False)
-            o2 = do(ctx, twin, init, ["transform", op[1]], count=False)
+            do(ctx, twin, init, ["fit"] + list(op[1:]), count=False)
+            o2 = do(ctx, twin, init, ["transform"] + list(op[1:]), count=False)
             ctx.valid(2)
             if not same_out(out, o2):
                 bad("fit_transform-output", "fit_transform(D) differs from fit(D); transform(D)", out_digest(out), out_digest(o2))
